@@ -66,16 +66,12 @@ template PyTreeTypeRegistry* PyTreeTypeRegistry::Singleton<NONE_IS_NODE>();
 template PyTreeTypeRegistry* PyTreeTypeRegistry::Singleton<NONE_IS_LEAF>();
 
 template <bool NoneIsLeaf>
-/*static*/ void PyTreeTypeRegistry::RegisterImpl(const py::object& cls,
+/*static*/ bool PyTreeTypeRegistry::RegisterImpl(const py::object& cls,
                                                  const py::function& flatten_func,
                                                  const py::function& unflatten_func,
                                                  const py::object& path_entry_type,
                                                  const std::string& registry_namespace) {
-    if (sm_builtins_types.find(cls) != sm_builtins_types.end()) [[unlikely]] {
-        throw py::value_error("PyTree type " + PyRepr(cls) +
-                              " is a built-in type and cannot be re-registered.");
-    }
-
+    // NOTE: the caller holds the registry lock: this function must not run any Python code.
     PyTreeTypeRegistry* const registry = Singleton<NoneIsLeaf>();
     auto registration = std::make_shared<std::remove_const_t<RegistrationPtr::element_type>>();
     registration->kind = PyTreeKind::Custom;
@@ -84,58 +80,11 @@ template <bool NoneIsLeaf>
     registration->unflatten_func = py::reinterpret_borrow<py::function>(unflatten_func);
     registration->path_entry_type = py::reinterpret_borrow<py::object>(path_entry_type);
     if (registry_namespace.empty()) [[unlikely]] {
-        if (!registry->m_registrations.emplace(cls, std::move(registration)).second) [[unlikely]] {
-            throw py::value_error("PyTree type " + PyRepr(cls) +
-                                  " is already registered in the global namespace.");
-        }
-        if (IsStructSequenceClass(cls)) [[unlikely]] {
-            PyErr_WarnEx(PyExc_UserWarning,
-                         ("PyTree type " + PyRepr(cls) +
-                          " is a class of `PyStructSequence`, "
-                          "which is already registered in the global namespace. "
-                          "Override it with custom flatten/unflatten functions.")
-                             .c_str(),
-                         /*stack_level=*/2);
-        } else if (IsNamedTupleClass(cls)) [[unlikely]] {
-            PyErr_WarnEx(PyExc_UserWarning,
-                         ("PyTree type " + PyRepr(cls) +
-                          " is a subclass of `collections.namedtuple`, "
-                          "which is already registered in the global namespace. "
-                          "Override it with custom flatten/unflatten functions.")
-                             .c_str(),
-                         /*stack_level=*/2);
-        }
-    } else [[likely]] {
-        if (!registry->m_named_registrations
-                 .emplace(std::make_pair(registry_namespace, cls), std::move(registration))
-                 .second) [[unlikely]] {
-            std::ostringstream oss{};
-            oss << "PyTree type " << PyRepr(cls) << " is already registered in namespace "
-                << PyRepr(registry_namespace) << ".";
-            throw py::value_error(oss.str());
-        }
-        if (IsStructSequenceClass(cls)) [[unlikely]] {
-            std::ostringstream oss{};
-            oss << "PyTree type " << PyRepr(cls)
-                << " is a class of `PyStructSequence`, "
-                   "which is already registered in the global namespace. "
-                   "Override it with custom flatten/unflatten functions in namespace "
-                << PyRepr(registry_namespace) << ".";
-            PyErr_WarnEx(PyExc_UserWarning,
-                         oss.str().c_str(),
-                         /*stack_level=*/2);
-        } else if (IsNamedTupleClass(cls)) [[unlikely]] {
-            std::ostringstream oss{};
-            oss << "PyTree type " << PyRepr(cls)
-                << " is a subclass of `collections.namedtuple`, "
-                   "which is already registered in the global namespace. "
-                   "Override it with custom flatten/unflatten functions in namespace "
-                << PyRepr(registry_namespace) << ".";
-            PyErr_WarnEx(PyExc_UserWarning,
-                         oss.str().c_str(),
-                         /*stack_level=*/2);
-        }
+        return registry->m_registrations.emplace(cls, std::move(registration)).second;
     }
+    return registry->m_named_registrations
+        .emplace(std::make_pair(registry_namespace, cls), std::move(registration))
+        .second;
 }
 
 /*static*/ void PyTreeTypeRegistry::Register(const py::object& cls,
@@ -143,83 +92,155 @@ template <bool NoneIsLeaf>
                                              const py::function& unflatten_func,
                                              const py::object& path_entry_type,
                                              const std::string& registry_namespace) {
-    const scoped_write_lock_guard lock{sm_mutex};
+    // NOTE: everything that may run arbitrary Python code (attribute lookups on the class and its
+    // metaclass, `repr()`, warning hooks) must happen while the registry lock is NOT held: another
+    // thread that blocks on the lock keeps the GIL and would deadlock with the lock holder.
+    const bool is_structseq_class = IsStructSequenceClass(cls);
+    const bool is_namedtuple_class = !is_structseq_class && IsNamedTupleClass(cls);
 
-    RegisterImpl<NONE_IS_NODE>(cls,
-                               flatten_func,
-                               unflatten_func,
-                               path_entry_type,
-                               registry_namespace);
-    RegisterImpl<NONE_IS_LEAF>(cls,
-                               flatten_func,
-                               unflatten_func,
-                               path_entry_type,
-                               registry_namespace);
-    cls.inc_ref();
-    flatten_func.inc_ref();
-    unflatten_func.inc_ref();
-    path_entry_type.inc_ref();
+    bool is_builtin_type = false;
+    bool is_registered = false;
+    {
+        const scoped_write_lock_guard lock{sm_mutex};
+
+        if (sm_builtins_types.find(cls) != sm_builtins_types.end()) [[unlikely]] {
+            is_builtin_type = true;
+        } else if (!RegisterImpl<NONE_IS_NODE>(cls,
+                                               flatten_func,
+                                               unflatten_func,
+                                               path_entry_type,
+                                               registry_namespace)) [[unlikely]] {
+            is_registered = true;
+        } else [[likely]] {
+            EXPECT_TRUE(RegisterImpl<NONE_IS_LEAF>(cls,
+                                                   flatten_func,
+                                                   unflatten_func,
+                                                   path_entry_type,
+                                                   registry_namespace),
+                        "The registries for `none_is_leaf` are out of sync.");
+            cls.inc_ref();
+            flatten_func.inc_ref();
+            unflatten_func.inc_ref();
+            path_entry_type.inc_ref();
+        }
+    }
+
+    if (is_builtin_type) [[unlikely]] {
+        throw py::value_error("PyTree type " + PyRepr(cls) +
+                              " is a built-in type and cannot be re-registered.");
+    }
+    if (is_registered) [[unlikely]] {
+        if (registry_namespace.empty()) [[unlikely]] {
+            throw py::value_error("PyTree type " + PyRepr(cls) +
+                                  " is already registered in the global namespace.");
+        }
+        std::ostringstream oss{};
+        oss << "PyTree type " << PyRepr(cls) << " is already registered in namespace "
+            << PyRepr(registry_namespace) << ".";
+        throw py::value_error(oss.str());
+    }
+
+    if (is_structseq_class || is_namedtuple_class) [[unlikely]] {
+        std::ostringstream oss{};
+        oss << "PyTree type " << PyRepr(cls)
+            << (is_structseq_class ? " is a class of `PyStructSequence`, "
+                                   : " is a subclass of `collections.namedtuple`, ")
+            << "which is already registered in the global namespace. "
+               "Override it with custom flatten/unflatten functions";
+        if (registry_namespace.empty()) [[unlikely]] {
+            oss << ".";
+        } else [[likely]] {
+            oss << " in namespace " << PyRepr(registry_namespace) << ".";
+        }
+        if (PyErr_WarnEx(PyExc_UserWarning, oss.str().c_str(), /*stack_level=*/2) < 0)
+            [[unlikely]] {
+            // The warning was turned into an exception: undo the registration.
+            RegistrationPtr registration1{nullptr};
+            RegistrationPtr registration2{nullptr};
+            {
+                const scoped_write_lock_guard lock{sm_mutex};
+                registration1 = UnregisterImpl<NONE_IS_NODE>(cls, registry_namespace);
+                registration2 = UnregisterImpl<NONE_IS_LEAF>(cls, registry_namespace);
+            }
+            if (registration1) [[likely]] {
+                registration1->type.dec_ref();
+                registration1->flatten_func.dec_ref();
+                registration1->unflatten_func.dec_ref();
+                registration1->path_entry_type.dec_ref();
+            }
+            throw py::error_already_set();
+        }
+    }
 }
 
 template <bool NoneIsLeaf>
 /*static*/ PyTreeTypeRegistry::RegistrationPtr PyTreeTypeRegistry::UnregisterImpl(
     const py::object& cls,
     const std::string& registry_namespace) {
-    if (sm_builtins_types.find(cls) != sm_builtins_types.end()) [[unlikely]] {
-        throw py::value_error("PyTree type " + PyRepr(cls) +
-                              " is a built-in type and cannot be unregistered.");
-    }
-
+    // NOTE: the caller holds the registry lock: this function must not run any Python code.
+    // Returns nullptr if the type is not registered.
     PyTreeTypeRegistry* const registry = Singleton<NoneIsLeaf>();
     if (registry_namespace.empty()) [[unlikely]] {
         const auto it = registry->m_registrations.find(cls);
         if (it == registry->m_registrations.end()) [[unlikely]] {
-            std::ostringstream oss{};
-            oss << "PyTree type " << PyRepr(cls) << " ";
-            if (IsStructSequenceClass(cls)) [[unlikely]] {
-                oss << "is a class of `PyStructSequence`, "
-                    << "which is not explicitly registered in the global namespace.";
-            } else if (IsNamedTupleClass(cls)) [[unlikely]] {
-                oss << "is a subclass of `collections.namedtuple`, "
-                    << "which is not explicitly registered in the global namespace.";
-            } else [[likely]] {
-                oss << "is not registered in the global namespace.";
-            }
-            throw py::value_error(oss.str());
+            return nullptr;
         }
         RegistrationPtr registration = it->second;
         registry->m_registrations.erase(it);
         return registration;
-    } else [[likely]] {
-        const auto named_it =
-            registry->m_named_registrations.find(std::make_pair(registry_namespace, cls));
-        if (named_it == registry->m_named_registrations.end()) [[unlikely]] {
-            std::ostringstream oss{};
-            oss << "PyTree type " << PyRepr(cls) << " ";
-            if (IsStructSequenceClass(cls)) [[unlikely]] {
-                oss << "is a class of `PyStructSequence`, "
-                    << "which is not explicitly registered ";
-            } else if (IsNamedTupleClass(cls)) [[unlikely]] {
-                oss << "is a subclass of `collections.namedtuple`, "
-                    << "which is not explicitly registered ";
-            } else [[likely]] {
-                oss << "is not registered ";
-            }
-            oss << "in namespace " << PyRepr(registry_namespace) << ".";
-            throw py::value_error(oss.str());
-        }
-        RegistrationPtr registration = named_it->second;
-        registry->m_named_registrations.erase(named_it);
-        return registration;
     }
+    const auto named_it =
+        registry->m_named_registrations.find(std::make_pair(registry_namespace, cls));
+    if (named_it == registry->m_named_registrations.end()) [[unlikely]] {
+        return nullptr;
+    }
+    RegistrationPtr registration = named_it->second;
+    registry->m_named_registrations.erase(named_it);
+    return registration;
 }
 
 /*static*/ void PyTreeTypeRegistry::Unregister(const py::object& cls,
                                                const std::string& registry_namespace) {
-    const scoped_write_lock_guard lock{sm_mutex};
+    bool is_builtin_type = false;
+    RegistrationPtr registration1{nullptr};
+    RegistrationPtr registration2{nullptr};
+    {
+        const scoped_write_lock_guard lock{sm_mutex};
 
-    const auto registration1 = UnregisterImpl<NONE_IS_NODE>(cls, registry_namespace);
-    const auto registration2 = UnregisterImpl<NONE_IS_LEAF>(cls, registry_namespace);
+        if (sm_builtins_types.find(cls) != sm_builtins_types.end()) [[unlikely]] {
+            is_builtin_type = true;
+        } else [[likely]] {
+            registration1 = UnregisterImpl<NONE_IS_NODE>(cls, registry_namespace);
+            registration2 = UnregisterImpl<NONE_IS_LEAF>(cls, registry_namespace);
+        }
+    }
+
+    // NOTE: build the error messages (which run Python code) after releasing the lock.
+    if (is_builtin_type) [[unlikely]] {
+        throw py::value_error("PyTree type " + PyRepr(cls) +
+                              " is a built-in type and cannot be unregistered.");
+    }
+    if (!registration1) [[unlikely]] {
+        std::ostringstream oss{};
+        oss << "PyTree type " << PyRepr(cls) << " ";
+        if (IsStructSequenceClass(cls)) [[unlikely]] {
+            oss << "is a class of `PyStructSequence`, "
+                << "which is not explicitly registered ";
+        } else if (IsNamedTupleClass(cls)) [[unlikely]] {
+            oss << "is a subclass of `collections.namedtuple`, "
+                << "which is not explicitly registered ";
+        } else [[likely]] {
+            oss << "is not registered ";
+        }
+        if (registry_namespace.empty()) [[unlikely]] {
+            oss << "in the global namespace.";
+        } else [[likely]] {
+            oss << "in namespace " << PyRepr(registry_namespace) << ".";
+        }
+        throw py::value_error(oss.str());
+    }
+
+    EXPECT_TRUE(registration2, "The registries for `none_is_leaf` are out of sync.");
     EXPECT_TRUE(registration1->type.is(registration2->type));
     EXPECT_TRUE(registration1->flatten_func.is(registration2->flatten_func));
     EXPECT_TRUE(registration1->unflatten_func.is(registration2->unflatten_func));
